@@ -3,7 +3,8 @@
     *)
 From V Require Import Common.Base JpegLL.JllBits JpegLL.JllHuff JpegLL.JllModel JpegLL.JllT81
   JpegLL.JllProofsBits JpegLL.JllProofsHuff JpegLL.JllProofs JpegLL.JllProofsRT JpegLL.JllProofsT81
-  JpegLL.JllProofsCanon JpegLL.JllProofsT81Dec.
+  JpegLL.JllProofsCanon JpegLL.JllProofsT81Dec JpegLL.JllProofsOpt JpegLL.JllProofsOpt2
+  JpegLL.JllProofsOpt3 JpegLL.JllProofsOpt4.
 
 (* First sentence of C13 in the model world: the independent T.81 Annex H decoder (written from
    the standard: Annex C code tables searched as an association list, DECODE/RECEIVE/EXTEND,
@@ -12,19 +13,17 @@ From V Require Import Common.Base JpegLL.JllBits JpegLL.JllHuff JpegLL.JllModel 
    lossless.Encode for every predictor 1..7 and automatic selection (0) ... *)
 Theorem C13_t81_decodes_lossless : forall w h comps P pred pixels s,
   wf_image w h comps P pixels -> 0 <= pred <= 7 ->
-  table_hyp (ll_diffs w comps P (effective_pred w h comps P pred pixels) (pixels_to_rows w h comps P pixels)) ->
   jll_encode w h comps P pred pixels = Ok s ->
   t81_decode s = Some (pixels, w, h, comps, P).
-Proof. exact t81_decodes_jll. Qed.
+Proof. exact t81_decodes_jll_full. Qed.
 Print Assumptions C13_t81_decodes_lossless.
 
 (* ... and from the stream of lossless14sv1.Encode. *)
 Theorem C13_t81_decodes_sv1 : forall w h comps P pixels s,
   wf_image w h comps P pixels ->
-  table_hyp (sv1_diffs w comps P (pixels_to_rows w h comps P pixels)) ->
   sv1_encode w h comps P pixels = Ok s ->
   t81_decode s = Some (pixels, w, h, comps, P).
-Proof. exact t81_decodes_sv1. Qed.
+Proof. exact t81_decodes_sv1_full. Qed.
 Print Assumptions C13_t81_decodes_sv1.
 
 (* The prediction used by encodeScan / decodeScan / optimizeHuffmanTables is the rule of
